@@ -153,3 +153,11 @@ def frame_kinds(frames):
             svc = p[3][1][0] if len(p[3][1]) > 0 else -1
             out.append({0x5B: "fo-large", 0x54: "fo-standard", 0x4E: "fclose"}.get(svc, "ucmm"))
     return out
+
+
+class Obj:
+    """a plain record (stand-in for a response object where only a few attributes are read)"""
+
+    def __init__(self, **kw):
+        for k, v in kw.items():
+            setattr(self, k, v)
